@@ -96,3 +96,69 @@ Proof.
   - apply (txflow_never_objects_C07 delay ops Hv i 122 Hm). cbn. tauto.
   - apply (txflow_never_objects_C03 delay ops Hv i 131 Hm). cbn. tauto.
 Qed.
+
+(* ---------------------------------------------------------------------------------------- *)
+(* the gating monitor never objects to the model *)
+From V.proofs Require Import Sync_Proofs.
+
+Lemma index_of_hgo id : forall (c : list hdr) i, index_of id (map fst c) i = hgo id c i.
+Proof.
+  induction c as [|h c IH]; intros i; [reflexivity|]. cbn [map index_of]. rewrite hgo_cons.
+  destruct (fst h =? id); [reflexivity|apply IH].
+Qed.
+
+Lemma untrusted_headers_rule DELTA s ver hs :
+  fst (untrusted_headers DELTA s ver hs) = ver || verify_rule DELTA (map fst (Sync.chain s)) hs.
+Proof.
+  unfold untrusted_headers, verify_rule. destruct ver; [reflexivity|]. cbn [orb].
+  destruct hs as [|h rest]; [reflexivity|].
+  rewrite index_of_hgo, <- height_of_hgo.
+  destruct (Sync.height_of s (fst h)) as [ht|]; [|reflexivity].
+  unfold Sync.height. replace (zlen (map fst (Sync.chain s))) with (zlen (Sync.chain s)) by (unfold zlen; rewrite map_length; reflexivity).
+  destruct (ht <? zlen (Sync.chain s) - 1 - DELTA - 1); [reflexivity|].
+  assert (E : forall p l, (fix go (prev : Z) (l : list hdr) {struct l} : bool :=
+               match l with [] => true | x :: l' => (snd x =? prev) && go (fst x) l' end) p l = linked_from p l).
+  { intros p l. revert p. induction l as [|x l IH]; intros p; [reflexivity|]. cbn. rewrite IH. reflexivity. }
+  rewrite E. destruct (linked_from (fst h) rest); reflexivity.
+Qed.
+
+Section Gate.
+Variable MAXR LIM HT HDT BT DELTA : Z.
+Variable parent_of : Z -> Z.
+
+Opaque digest.
+Lemma gate_silent : forall ops w i,
+  gate_from DELTA (w_uverified w) i ops (Sync.run_from MAXR LIM HT HDT BT DELTA parent_of w ops) = None.
+Proof.
+  induction ops as [|o ops IH]; intros w i; [reflexivity|].
+  cbn [Sync.run_from]. destruct (Sync.step MAXR LIM HT HDT BT DELTA parent_of w o) as [w1 ob] eqn:Hs.
+  cbn [gate_from].
+  destruct o as [|hs|id valid| | |dt| | | |id valid|hs|t|t]; cbn [Sync.step] in Hs; cbv beta zeta in Hs.
+  - injection Hs as <- <-. cbn [hd tl]. rewrite parse_obs_digest. apply (IH (World _ (w_uverified w))).
+  - destruct (handle_headers MAXR LIM (w_sync w) hs) as [s1 res]. injection Hs as <- <-.
+    destruct res; cbn [hd tl]; rewrite parse_obs_digest; apply (IH (World _ (w_uverified w))).
+  - destruct (handle_block (w_sync w) id valid) as [s1 ok]. injection Hs as <- <-. cbn [hd tl].
+    rewrite parse_obs_digest. apply (IH (World _ (w_uverified w))).
+  - destruct (process_next MAXR LIM parent_of (w_sync w)) as [[s1 popped] reqs]. injection Hs as <- <-.
+    destruct popped as [[id code]|]; cbn [hd tl]; rewrite parse_obs_digest; apply (IH (World _ (w_uverified w))).
+  - destruct (check (w_sync w)) as [s1 outs]. injection Hs as <- <-. cbn [hd tl].
+    rewrite parse_obs_digest. apply (IH (World _ (w_uverified w))).
+  - injection Hs as <- <-. cbn [hd tl]. rewrite parse_obs_digest. apply (IH (World _ (w_uverified w))).
+  - destruct (timed_out HT HDT BT (w_sync w)); injection Hs as <- <-; cbn [hd tl]; rewrite parse_obs_digest;
+      apply (IH (World _ (w_uverified w))).
+  - injection Hs as <- <-. cbn [hd tl]. rewrite parse_obs_digest. apply (IH (World _ (w_uverified w))).
+  - injection Hs as <- <-. rewrite <- (app_nil_r (digest (restart_node (w_sync w)))). rewrite parse_obs_digest. apply (IH (World _ false)).
+  - injection Hs as <- <-. cbn [hd tl]. rewrite parse_obs_digest. apply (IH (World _ (w_uverified w))).
+  - pose proof (untrusted_headers_rule DELTA (w_sync w) (w_uverified w) hs) as Hr.
+    destruct (untrusted_headers DELTA (w_sync w) (w_uverified w) hs) as [v e]. cbn [fst] in Hr. injection Hs as <- <-.
+    rewrite parse_obs_digest. cbn [d_chain d_payload]. rewrite <- Hr, zeq_refl. apply (IH (World _ v)).
+  - injection Hs as <- <-. rewrite parse_obs_digest. cbn [d_payload]. rewrite zeq_refl. apply IH.
+  - injection Hs as <- <-. rewrite parse_obs_digest. cbn [d_payload]. rewrite zeq_refl. apply IH.
+Qed.
+Transparent digest.
+End Gate.
+
+Lemma c12_gate_silent :
+  forall (MAXR LIM HT HDT BT DELTA : Z) (parents : list (Z * Z)) (start : Z) (ops : list Sync.op),
+    c12_gate_monitor DELTA ops (Sync.run MAXR LIM HT HDT BT DELTA parents start ops) = None.
+Proof. intros. unfold c12_gate_monitor, Sync.run. apply (gate_silent _ _ _ _ _ _ _ ops (World _ false)). Qed.
